@@ -416,6 +416,10 @@ def fold_stmts(fo, stmts, env):
             ret = r.value
             break
         except (Refuse, Raised) as e:
+            if isinstance(st, ast.Assert) or (isinstance(st, ast.Expr) and isinstance(st.value, ast.Call) and isinstance(st.value.func, (ast.Name, ast.Attribute))
+                                              and (getattr(st.value.func, "id", None) == "print" or (isinstance(st.value.func, ast.Attribute) and isinstance(st.value.func.value, ast.Name)
+                                                                                                      and st.value.func.value.id in ("logger", "logging", "warnings")))):
+                continue   # binds nothing: an assertion / a message about values the fold keeps symbolic
             skipped.append((st, e))
             for x in ast.walk(st):
                 tgt = None
